@@ -22,6 +22,9 @@
 // input    (15 fmt nref total seed flag)                               a complete frame of `total` bytes with a VALID
 // observed (panicked errkind consumed wanted maxcap nrefs bodylen)      checksum, nref references and a regenerated
 //                                                                       body, around the size limit (sizes only)
+// input    (16 fmt nref announced sent seed)                           a frame that announces `announced` bytes, of
+// observed (panicked errkind consumed wanted maxcap bodylen)            which only `sent` arrive before the stream ends;
+//                                                                       the checksum field is VALID for what was sent
 // panicked = 2 in a res: the decoder was not run (memory guard, see guard()).
 package main
 
@@ -653,8 +656,49 @@ func runWhole(in Sx) Sx {
 		Int(int64(len(pkt.Refers_))), Int(int64(got)))
 }
 
+// runShort: the stream ends in the middle of a frame whose checksum matches the bytes that did
+// arrive (sizes only: announced lengths go up to the maximum)
+func runShort(in Sx) Sx {
+	fmtc, nref, announced, sent, seed := in.At(1).AsInt(), in.At(2).AsInt(), in.At(3).AsInt(), in.At(4).AsInt(), in.At(5).Uint64()
+	var data []byte
+	if fmtc == 3 {
+		data = append([]byte{byte(announced >> 8), byte(announced)}, GenBytes(uint32(seed)|1, sent-2, 255)...)
+	} else {
+		hs := HeaderSize(fmtc)
+		refs := 0
+		if fmtc == 2 {
+			refs = 4 * nref
+		}
+		n := sent - hs
+		payload := GenBytes(uint32(seed)|1, n, 255)
+		_ = refs
+		data = craft(fmtc, 1, 0, byte(nref), uint16(seed), uint32(seed>>3), uint32(seed>>5), payload, announced, false)
+	}
+	r := NewChunkReader(data, nil)
+	r.Begin()
+	pkt := packet.Make()
+	var err error
+	var got []byte
+	var p bool
+	if fmtc == 3 {
+		p, _ = Catch(func() { got, err = codec.ReadLenData(r) })
+	} else {
+		p, _ = Catch(func() { err = NewEncoder(fmtc, 0).ReadPacket(r, nil, pkt) })
+		if b, ok := pkt.Body_.([]byte); ok {
+			got = b
+		}
+	}
+	pn := 0
+	if p {
+		pn = 1
+	}
+	return List(Int(int64(pn)), Int(int64(ErrKind(err))), Int(int64(r.Pos)), Int(int64(r.Wanted-r.Start)), Int(int64(r.MaxCap)), Int(int64(len(got))))
+}
+
 func run(in Sx) Sx {
 	switch in.At(0).Int64() {
+	case 16:
+		return runShort(in)
 	case 15:
 		return runWhole(in)
 	case 14:
@@ -895,6 +939,30 @@ func gen(a Args, out *Out) {
 					continue
 				}
 				emit("whole-frame-at-limit", List(Int(15), Int(int64(ver)), Int(int64(nref)), Int(int64(total)), Uint(rng.Next()&0xFFFFFFFF), Int(int64(rng.PickInt(0, 0x20)))))
+			}
+		}
+	}
+
+	// 1c. the stream ends inside a frame whose checksum is valid for the bytes that arrived: announced
+	// length x sent length, on both sides of the powers of two a reader might switch strategy at
+	for _, fmtc := range []int{1, 2, 3} {
+		hs, max := HeaderSizeOf(fmtc), MaxOf(fmtc)
+		var anns []int
+		for _, t := range []int{hs + 1, hs + 2, 100, 4096, 32768, 65535, 65536, 65537, 65536 + hs, 65537 + hs, 1 << 20, 1<<20 + hs + 1, 4 << 20, max - 1, max} {
+			if t > hs && t <= max {
+				anns = append(anns, t)
+			}
+		}
+		for _, ann := range anns {
+			for _, sent := range []int{hs, hs + 1, (ann + hs) / 2, ann - 1} {
+				if sent < hs || sent >= ann {
+					continue
+				}
+				nref := 0
+				if fmtc == 2 && sent-hs >= 4 {
+					nref = rng.PickInt(0, 1)
+				}
+				emit("short-valid-crc", List(Int(16), Int(int64(fmtc)), Int(int64(nref)), Int(int64(ann)), Int(int64(sent)), Uint(rng.Next()&0xFFFFFFFF)))
 			}
 		}
 	}
